@@ -7,6 +7,8 @@ package main
 // front is an in-memory ResponseWriter.
 
 import (
+	"net/textproto"
+	"net/http/httptrace"
 	"bytes"
 	"context"
 	"errors"
@@ -53,6 +55,7 @@ type reqPlan struct {
 	mode     string // overrides backend mode when non-empty
 	delay    time.Duration
 	body     []byte
+	interim  []int // informational responses (103 Early Hints ...) the backend sends before its final answer
 }
 
 type lbEvent struct {
@@ -66,7 +69,8 @@ type lbEvent struct {
 }
 
 type stubNet struct {
-	x      *X
+	x          *X
+	interimAll []int // every backend of this run sends these informational responses before each final answer
 	mu     sync.Mutex
 	byHost map[string]*stubBackend
 	byName map[string]*stubBackend
@@ -114,6 +118,12 @@ func statusOfMode(mode string) int {
 		return 404
 	case "s204":
 		return 204
+	case "s429": // the backend's own throttling: an answer like any other 4xx, not Helios' limiter
+		return 429
+	case "s503": // the backend's own "unavailable": a failed response, not Helios' "no healthy backend"
+		return 503
+	case "s401":
+		return 401
 	}
 	return 200
 }
@@ -201,6 +211,23 @@ func (n *stubNet) roundTrip(real *http.Transport, r *http.Request) (*http.Respon
 		h := http.Header{"Content-Type": {"text/plain"}}
 		return &http.Response{StatusCode: 200, Status: "200 OK", Proto: "HTTP/1.1", ProtoMajor: 1, ProtoMinor: 1, Header: h,
 			Body: &errReader{data: []byte("partial"), err: io.ErrUnexpectedEOF}, ContentLength: 100, Request: r}, nil
+	}
+	interim := n.interimAll
+	if plan != nil && len(plan.interim) > 0 {
+		interim = plan.interim
+	}
+	if len(interim) > 0 {
+		// what net/http's transport does on reading a 1xx: it hands it to the request's client
+		// trace (the reverse proxy has installed one that relays it to the client)
+		if tr := httptrace.ContextClientTrace(r.Context()); tr != nil && tr.Got1xxResponse != nil {
+			for _, code := range interim {
+				if err := tr.Got1xxResponse(code, textproto.MIMEHeader{"Link": {"</style.css>; rel=preload; as=style"}}); err != nil {
+					done()
+					n.ev("answered", id, b.name, 0, "interim-relay-failed")
+					return nil, err
+				}
+			}
+		}
 	}
 	st := statusOfMode(mode)
 	body := []byte("hello from " + b.name)
